@@ -397,6 +397,22 @@ def gen_C12(tier, seed):
             b = parts_of(va + g.r.choice([-1, 0, 1, 37 * SEC, -37 * SEC, 19 * SEC, REF_NS[5], -REF_NS[5], 32184000000])) + (g.r.choice(INT_SCALES),)
         f = g.r.choice(["ecmp", "eeq", "ecmp", "eeq", "emin", "emax"])
         out.append(f"{f} {p3(a)} {p3(b)}")
+    # operands in ET / TDB: the statement holds for instants more than 100 ns apart
+    rc = random.Random(seed * 43 + 12)
+    J2000 = 3155716800 * SEC
+    for _ in range(budget(tier, 2500, 30000)):
+        i1 = J2000 + rc.choice([rc.randint(-10**19, 10**19), rc.randint(-3 * 10**20, 3 * 10**20), rc.randint(-10**12, 10**12)])
+        dd = rc.choice([-1, 1]) * rc.choice([101, 150, 200, 1000, 10**6, 10**9, 40 * 10**9, rc.randint(101, 10**10), 0, 50, 99])
+        ta = rc.choice([2, 3]); tb = rc.choice([0, 1, 2, 3, 4, 5, 6, 7, 8])
+        if tb == ta and rc.random() < 0.7:
+            tb = 0
+        # counts: float scale from J2000 (approximately, the spec computes the exact instant), integer scales from their zero
+        va = i1 - J2000 - 32184000000
+        vb = (i1 + dd - J2000 - 32184000000) if tb in (2, 3) else (i1 + dd - REF_NS.get(tb, 0) - (0 if tb != 4 else 0))
+        pair = (parts_of(va) + (ta,), parts_of(vb) + (tb,))
+        if rc.random() < 0.5:
+            pair = (pair[1], pair[0])
+        out.append(f"ecmpf {p3(pair[0])} {p3(pair[1])}")
     return out
 
 
@@ -973,6 +989,17 @@ def gen_C11(tier, seed):
         return f"p_dur_v {enc(text)} {fr.numerator} {fr.denominator} {tol}"
     for d in durs10k_c11():
         out.append(f"rt_dur {p2(d)}")
+    # single-component texts of every length ("-13 \u03bcs" is seven bytes, like an offset -HHMMSS), then two-component ones
+    for f in UNIT_FACTORS[:7]:
+        for k in (1, 2, 9, 10, 13, 59, 99, 100, 101, 999):
+            for sg in (1, -1):
+                if k * f < MAXV:
+                    out.append(f"rt_dur {p2(parts_of(sg * k * f))}")
+        for f2 in UNIT_FACTORS[:7]:
+            if f2 < f:
+                for k, k2 in ((1, 1), (13, 7), (10, 10), (23, 59)):
+                    out.append(f"rt_dur {p2(parts_of(-(k * f + k2 * f2)))}")
+                    out.append(f"rt_dur {p2(parts_of(k * f + k2 * f2))}")
     for sp, f in SPELL.items():
         for k in (0, 1, 2, 59, 999, 1000, 10**6, 3652425):
             if k * f < 2**53:
